@@ -1,6 +1,72 @@
-(* Props/Properties_C11.v - statements only; see DESIGN.md section 8 C11. *)
-From Adm Require Import Heap.Exec Heap.More gen.PlansGen Heap.PlanChecks.
+(* Props/Properties_C11.v - C11: IDs stay consistent with the structure they label.  Statements only; proofs in
+   Heap/BlockIds.v.  Proved for all inputs, call by call: what AudioChannelFormat::add(block) assigns and rejects, that
+   it keeps the labelling and consecutive numbering of a block vector, what set(AudioChannelFormatId) and
+   reassignBlockFormats do to the blocks, that pack and channel formats only ever get IDs of their own type, and that
+   a track format without ID takes type and value of its stream format.  Partial (suffix _partial where it matters):
+   these are preservation steps; that every state reached by arbitrary histories (including copies and parsed files)
+   satisfies the labelling is explored by the differential run with the ID-shape oracle on every snapshot. *)
+From Adm Require Import Heap.Exec Heap.More Heap.Frame Heap.BlockIds.
+Local Open Scope N_scope.
 
-Theorem C11_plans_recognised : plans_problems = [] /\ add_plan_complete gen_plans = true /\ plans_typed gen_plans = true.
-Proof. exact (conj plans_recognised (conj gen_add_plan_complete gen_plans_typed)). Qed.
-Print Assumptions C11_plans_recognised.
+Theorem C11_block_without_id_gets_next : forall h t b s e, get_elem s h = Some e -> ekind e = KChan ->
+  blk_undefined (bid b) = true ->
+  add_block h t b s =
+  (put_elem s h (set_blocks e (fun t' => if t' =? t then eblocks e t ++ [mkBlock (auto_id e t) (brtime b) (bdur b) (btag b)]
+                                         else eblocks e t')), inl tt).
+Proof. exact add_block_auto. Qed.
+Print Assumptions C11_block_without_id_gets_next.
+
+Theorem C11_explicit_block_id_checked : forall h t b s e, get_elem s h = Some e -> ekind e = KChan ->
+  blk_undefined (bid b) = false ->
+  (ity (bid b) <> etd e \/ ival (bid b) <> ival (eid e) \/
+   (exists c, last_ctr (eblocks e t) = Some c /\ ictr (bid b) <> c + 1)) ->
+  add_block h t b s = (s, inr BlockId).
+Proof. exact add_block_explicit_checked. Qed.
+Print Assumptions C11_explicit_block_id_checked.
+
+Theorem C11_numbering_kept_by_add_partial : forall e t b, labelled (etd e) (ival (eid e)) (eblocks e t) ->
+  consec (eblocks e t) -> from_one (eblocks e t) ->
+  let l' := eblocks e t ++ [mkBlock (auto_id e t) (brtime b) (bdur b) (btag b)] in
+  labelled (etd e) (ival (eid e)) l' /\ consec l' /\ from_one l'.
+Proof. exact auto_block_keeps_numbering. Qed.
+Print Assumptions C11_numbering_kept_by_add_partial.
+
+Theorem C11_blocks_follow_channel_value : forall e v t,
+  map (fun b => (ity (bid b), ictr (bid b), brtime b, bdur b, btag b)) (eblocks (renumber_blocks e v) t) =
+  map (fun b => (ity (bid b), ictr (bid b), brtime b, bdur b, btag b)) (eblocks e t) /\
+  forall b, In b (eblocks (renumber_blocks e v) t) -> ival (bid b) = v.
+Proof. exact renumber_blocks_spec. Qed.
+Print Assumptions C11_blocks_follow_channel_value.
+
+Theorem C11_reassigned_blocks : forall td v l,
+  let l' := snd (renum td v l) in
+  length l' = length l /\ labelled td v l' /\ consec l' /\ from_one l' /\
+  map (fun b => (brtime b, bdur b, btag b)) l' = map (fun b => (brtime b, bdur b, btag b)) l.
+Proof. exact renum_spec. Qed.
+Print Assumptions C11_reassigned_blocks.
+
+Theorem C11_reassign_blocks_is_that_renumbering : forall h s e, get_elem s h = Some e ->
+  ((1 <=? etd e) && (etd e <=? 5)) = true ->
+  exists e', reassign_blocks h s = (put_elem s h e', inl tt) /\
+             eblocks e' (etd e) = snd (renum (etd e) (ival (eid e)) (eblocks e (etd e))) /\
+             (forall t, t <> etd e -> eblocks e' t = eblocks e t) /\ eid e' = eid e /\ erefs e' = erefs e.
+Proof. exact reassign_blocks_is_renum. Qed.
+Print Assumptions C11_reassign_blocks_is_that_renumbering.
+
+Theorem C11_track_id_follows_stream : forall s x e st se ni, ekind e = KTrack -> is_undefined KTrack (eid e) = true ->
+  single (erefs e TrackStream) = Some st -> get_elem s st = Some se -> new_id_for s x e = Some ni ->
+  ity ni = ity (eid se) /\ ival ni = ival (eid se).
+Proof. exact track_id_follows_stream. Qed.
+Print Assumptions C11_track_id_follows_stream.
+
+Theorem C11_assigned_id_has_own_type : forall s x e ni, (ekind e = KPack \/ ekind e = KChan) ->
+  new_id_for s x e = Some ni -> ity ni = etd e.
+Proof. exact assigned_id_has_own_type. Qed.
+Print Assumptions C11_assigned_id_has_own_type.
+
+Theorem C11_set_id_of_other_type_rejected : forall h i s e, get_elem s h = Some e -> (ekind e = KPack \/ ekind e = KChan) ->
+  is_undefined (ekind e) i = false -> ity i <> etd e ->
+  (forall d, eparent e = Some d -> lookup d (ekind e) i s = (s, inl None)) ->
+  set_id h i s = (s, inr TypeMismatch).
+Proof. exact set_id_wrong_type_rejected. Qed.
+Print Assumptions C11_set_id_of_other_type_rejected.
